@@ -145,11 +145,16 @@ fn eval_unary_expr(
     context: &mut model::Context,
 ) -> error::Result<model::Value> {
     let value = eval_union_expr(uni.value(), node.clone(), context)?;
-    let inv = uni.inv().len() % 2;
-    if inv == 0 {
-        Ok(value)
+    if uni.inv().is_empty() {
+        return Ok(value);
+    }
+
+    // Every minus sign converts its operand to a number, also when the signs cancel out.
+    let number = f64::try_from(&value)?;
+    if uni.inv().len() % 2 == 0 {
+        Ok(number.as_value())
     } else {
-        Ok((-f64::try_from(&value)?).as_value())
+        Ok((-number).as_value())
     }
 }
 
